@@ -478,6 +478,7 @@ func init() {
 			{"M2", "refusal does not mutate: no store through the receiver on any path to `return false`", ruleM2},
 			{"M3", "relocation cannot reach an explicit panic", ruleM3},
 			{"M5", "the refusal test of AdjustOffs measures the extent over all six components under the same presence test (Offs != 0) that the rebasing uses, before the refusal return", ruleM5},
+			{"M7", "the URI end measured by the fit test of AdjustOffs is a running maximum: every conditional update by a component end x.Offs+x.Len lies behind the comparison of that end with the end kept so far, and a loop of AdjustOffs has no early exit (components are not in textual order for tel: URIs with a password)", ruleM7},
 			{"M4", "Long tests the components in reverse URI order, exhaustively, each branch ending at the component it tested; Short is the sub-cascade Port,Host,User from the same start (prefix of Long); Truncate resets exactly Params and Headers", ruleM4},
 		},
 		Assumptions: []string{"component order in the struct is the textual order of a URI (C14)"},
@@ -544,4 +545,167 @@ func ruleM5(c *Ctx) {
 		c.check(ext[f], "M5", "extent:"+f, fd.Pos(), "the refusal test measures component "+f+" (Offs+Len) under the same presence test (Offs != 0) the rebasing uses")
 	}
 	c.expectMin("M5", 6)
+}
+
+// M7: the URI end that the fit test of AdjustOffs measures is a running maximum over the components. The
+// components are NOT in textual order in the structure (the tel: fix-up of ParseURI moves the number into User,
+// behind Pass), so "the first component present from the end" is not the extent. Decided on SSA, whatever the
+// spelling (range loop over a literal array, or an if chain): every phi edge that brings in a component end
+// (x.Offs + x.Len) conditionally lies behind the true edge of a comparison "that same end > the value the phi
+// would otherwise keep"; and a loop of AdjustOffs is left only from its head (no early exit that skips components).
+func ruleM7(c *Ctx) {
+	fn := c.SFuncs["PsipURI.AdjustOffs"]
+	if fn == nil {
+		c.fail("M7", "AdjustOffs", token.NoPos, "not found")
+		return
+	}
+	var key func(v ssa.Value, d int) string
+	key = func(v ssa.Value, d int) string {
+		if d > 8 || v == nil {
+			return "?"
+		}
+		switch x := v.(type) {
+		case *ssa.BinOp:
+			return "(" + key(x.X, d+1) + x.Op.String() + key(x.Y, d+1) + ")"
+		case *ssa.UnOp:
+			return x.Op.String() + key(x.X, d+1)
+		case *ssa.FieldAddr:
+			st := x.X.Type().Underlying().(*types.Pointer).Elem().Underlying().(*types.Struct)
+			return key(x.X, d+1) + "." + st.Field(x.Field).Name()
+		case *ssa.Field:
+			st := x.X.Type().Underlying().(*types.Struct)
+			return key(x.X, d+1) + "." + st.Field(x.Field).Name()
+		case *ssa.Convert:
+			return key(x.X, d+1)
+		case *ssa.ChangeType:
+			return key(x.X, d+1)
+		case *ssa.Const:
+			return x.Value.String()
+		}
+		return v.Name()
+	}
+	// x.Offs + x.Len of one base
+	isCompEnd := func(v ssa.Value) bool {
+		b, ok := stripNarrow(v).(*ssa.BinOp)
+		if !ok || b.Op != token.ADD {
+			return false
+		}
+		kx, ky := key(b.X, 0), key(b.Y, 0)
+		if strings.HasSuffix(kx, ".Len") {
+			kx, ky = ky, kx
+		}
+		return strings.HasSuffix(kx, ".Offs") && strings.HasSuffix(ky, ".Len") && strings.TrimSuffix(kx, ".Offs") == strings.TrimSuffix(ky, ".Len")
+	}
+	// a spilled local read through its address must have a single store (so equal renderings are equal values
+	// between the comparison and the assignment it dominates)
+	singleStore := func(v ssa.Value) bool {
+		ok := true
+		var walk func(x ssa.Value, d int)
+		walk = func(x ssa.Value, d int) {
+			if d > 8 || x == nil {
+				return
+			}
+			switch y := x.(type) {
+			case *ssa.BinOp:
+				walk(y.X, d+1)
+				walk(y.Y, d+1)
+			case *ssa.UnOp:
+				walk(y.X, d+1)
+			case *ssa.FieldAddr:
+				walk(y.X, d+1)
+			case *ssa.Field:
+				walk(y.X, d+1)
+			case *ssa.Convert:
+				walk(y.X, d+1)
+			case *ssa.Alloc:
+				n := 0
+				for _, r := range *y.Referrers() {
+					if s, isS := r.(*ssa.Store); isS && s.Addr == ssa.Value(y) {
+						n++
+					}
+				}
+				if n != 1 {
+					ok = false
+				}
+			}
+		}
+		walk(v, 0)
+		return ok
+	}
+	nmax := 0
+	for _, b := range fn.Blocks {
+		for _, ins := range b.Instrs {
+			ph, ok := ins.(*ssa.Phi)
+			if !ok {
+				continue
+			}
+			for ei, v := range ph.Edges {
+				p := b.Preds[ei]
+				if !isCompEnd(v) || p == fn.Blocks[0] || p.Dominates(b) && len(p.Succs) == 1 && fn.Blocks[0] == p {
+					continue
+				}
+				// unconditional initialisation (the pred reaches the merge on every path from entry): not an update
+				if vi, isI := v.(ssa.Instruction); isI && vi.Block() == fn.Blocks[0] {
+					continue
+				}
+				nmax++
+				others := map[ssa.Value]bool{ssa.Value(ph): true}
+				for ej, w := range ph.Edges {
+					if ej != ei {
+						others[w] = true
+					}
+				}
+				kv := key(v, 0)
+				found := false
+				for _, d := range fn.Blocks {
+					iff, isIf := d.Instrs[len(d.Instrs)-1].(*ssa.If)
+					if !isIf {
+						continue
+					}
+					cmp, isB := iff.Cond.(*ssa.BinOp)
+					if !isB {
+						continue
+					}
+					for idx := 0; idx < 2; idx++ {
+						s := d.Succs[idx]
+						if len(s.Preds) != 1 || !s.Dominates(p) {
+							continue
+						}
+						var big, small ssa.Value
+						switch {
+						case cmp.Op == token.GTR && idx == 0, cmp.Op == token.LEQ && idx == 1:
+							big, small = cmp.X, cmp.Y
+						case cmp.Op == token.LSS && idx == 0, cmp.Op == token.GEQ && idx == 1:
+							big, small = cmp.Y, cmp.X
+						default:
+							continue
+						}
+						if key(big, 0) == kv && others[small] && singleStore(big) {
+							found = true
+						}
+					}
+				}
+				c.check(found, "M7", "max-update:"+itoa(nmax), v.Pos(), "the URI end takes the end of a component ("+kv+") only behind the test that this end exceeds the end kept so far: the extent is the maximum over the components, whatever their order in the text (tel: URIs keep the number, as User, behind the password)")
+			}
+		}
+	}
+	c.check(nmax >= 1, "M7", "max-updates", fn.Pos(), fmt.Sprintf("%d conditional update(s) of the URI end by a component end found", nmax))
+	for li, l := range naturalLoops(fn) {
+		okl := true
+		var at token.Pos = fn.Pos()
+		for b := range l.body {
+			if b == l.head {
+				continue
+			}
+			for _, s := range b.Succs {
+				if !l.body[s] {
+					okl = false
+					if n := len(b.Instrs); n > 0 {
+						at = b.Instrs[n-1].Pos()
+					}
+				}
+			}
+		}
+		c.check(okl, "M7", "no-early-exit:"+itoa(li+1), at, "a loop of AdjustOffs is left only from its head: no component is skipped by an early exit")
+	}
 }
